@@ -34,6 +34,7 @@ fn run_case(x: &Sx) -> Sx {
         "xsort" => extsort::run_xsort(&l[1..]),
         "tmp" => extsort::run_tmp(&l[1..]),
         "xsortrec" => extsort::run_xsortrec(&l[1..]),
+        "xsort2" => extsort::run_xsort2(&l[1..]),
         k => Sx::L(vec![a("glue-error"), a(format!("unknown-kind-{}", k))]),
     }
 }
